@@ -810,6 +810,11 @@ func (x *runner) call(ci int) bool {
 	}
 	if d.Stream == "recipe-nil" {
 		k.Count(fmt.Sprintf("recipe_nil.delivery%d.%s", d.Case%4, class), 1)
+		if len(sc.forks) > 0 && strings.Contains(sc.forks[0].desc.Kind, "adversary-made") {
+			k.Count("recipe_nil.own_set_adversary_made", 1)
+		} else {
+			k.Count("recipe_nil.own_set_genuine", 1)
+		}
 		k.Count("recipe_nil.stored_headers", int64(len(fresh)))
 		for _, e := range win {
 			if e.Kind == "reply" && e.lb != nil && nilPadded(e.lb) {
